@@ -2895,7 +2895,10 @@ class TLSConnection(TLSRecordLayer):
                           self._recordLayer._get_pending_state_etm(),
                           extended_master_secret=self.extendedMasterSecret,
                           server_name=self.session.serverName.encode("utf-8")
-                          if self.session.serverName else bytearray())
+                          if self.session.serverName else bytearray(),
+                          srp_username=
+                          self.session.srpUsername.encode("utf-8")
+                          if self.session.srpUsername else bytearray())
 
             # encrypt the ticket
 
@@ -3569,7 +3572,8 @@ class TLSConnection(TLSRecordLayer):
         session.create(ticket.master_secret,
                        b'',  # no session_id
                        ticket.cipher_suite,
-                       '',  # not SRP
+                       ticket.srp_username.decode("utf-8")
+                       if ticket.srp_username else '',
                        ticket.client_cert_chain,
                        None,  # no server cert chain
                        None,  # no TACK
@@ -4107,6 +4111,13 @@ class TLSConnection(TLSRecordLayer):
                     for result in self._sendError(
                             AlertDescription.illegal_parameter):
                         yield result
+                if clientHello.srp_username and not session.srpUsername \
+                        and ticket_ext and ticket_ext.ticket:
+                    # a ticket that carries no SRP identity cannot be
+                    # matched with the SRP user of this hello: decline it
+                    # and perform a full handshake instead
+                    session = None
+                    raise KeyError()
                 if clientHello.srp_username:
                     if not session.srpUsername or \
                             clientHello.srp_username != \
